@@ -96,17 +96,16 @@ def run_pack(ctx, pid, invs):
         cls = c["cls"]
         if cls == C18_CLASS and not c18:
             continue            # judged by C18 (the deviation is an authority leak, not a round-trip failure)
-        ident = "%s:%s" % (cls or "case", c["dirkind"])
         where = "%s in a %s directory" % (given_str(c["g"]), c["dirkind"])
 
         def rep(field, what):
-            ctx.report("%s:%s" % (ident if cls else "case:" + field, field) if cls else "case:%s:%s" % (field, c["dirkind"]),
-                       "%s: %s" % (where, what), replay={"kind": "gen-case", "case": c, "observed": o})
+            key = "%s:%s:%s" % (cls, field, c["dirkind"]) if cls else "case:%s:%s" % (field, c["dirkind"])
+            ctx.report(key, "%s: %s" % (where, what), replay={"kind": "gen-case", "case": c, "observed": o})
         if o["n"] != c["n"]:
             rep("node", "create_from_cap gives %s, Spec %s" % (json.dumps(o["n"]), json.dumps(c["n"])))
             if cls == C18_CLASS and o["pack"] == "ok":
                 if o.get("knows_w") or (o.get("r", {}).get("n", {}).get("rw", {}).get("kind", "none") != "none"):
-                    ctx.report("%s:leak" % cls, "%s: the directory plaintext holds the child's write-cap and a read-cap holder of the "
+                    ctx.report("%s:leak:%s" % (cls, c["dirkind"]), "%s: the directory plaintext holds the child's write-cap and a read-cap holder of the "
                                "directory obtains a writeable node (reader view %s)" % (where, json.dumps(o.get("r"))),
                                replay={"kind": "gen-case", "case": c, "observed": o})
             continue
@@ -175,3 +174,27 @@ def run_pack(ctx, pid, invs):
     ok = [b for b in dirs if b["status"] == "ok" and b["entries"]]
     if ok:
         ctx.sample({"real_directory": {k: v for k, v in ok[0].items() if k != "entries"}, "first_entry": ok[0]["entries"][0]})
+    return cases, namecases, pairs
+
+
+TREE_INVS = ["C18_Transitive", "C18_ReadOnlyNodes", "C18_WriterSees", "C18_SameObject"]
+
+
+def run_trees(ctx, cases, namecases, pairs):
+    q = ctx.quick
+    consts = {"Kinds": KINDS, "MaxDepth": 3 if q else 4}
+    ctx.constants["MC_tree"] = consts
+    cfg = "SPECIFICATION Spec\nCONSTANTS\n  Kinds = %s\n  MaxDepth = %d\n" % (KINDS, consts["MaxDepth"]) + \
+          "".join("INVARIANT %s\n" % i for i in TREE_INVS) + "CHECK_DEADLOCK FALSE\n"
+    ctx.mc("dir/MCDirTree", cfg, name="MC DirTree (paths)")
+    n = 40 if q else 400
+    trees = ctx.impl("harness/dir_driver.py", ["--mode", "c18trees", "--n", n], input_obj={"cases": cases, "namecases": namecases, "pairs": pairs})
+    for t in trees:
+        deep = any(e["ev"] == "path" and e["via"] == "r" and len(e["steps"]) >= 2 for e in t["events"])
+        ctx.count(json.dumps(t["events"], sort_keys=True) if deep else None)
+    big = max(trees, key=lambda t: len(t["events"]))
+    ctx.sample({"tree_root": big["consts"], "events": len(big["events"]),
+                "deepest_reader_path": max((e for e in big["events"] if e["ev"] == "path" and e["via"] == "r"), key=lambda e: len(e["steps"]))})
+    ctx.trace("dir/TraceDirTree", trees, batch=200,
+              key_of=lambda tr, l, c: "tree:%s" % c,
+              what_of=lambda tr, l, c: "real directory tree, event %d (%s): %s" % (l, json.dumps(tr["events"][l - 1])[:600], c))
